@@ -357,6 +357,29 @@ def run(ctx: Ctx):
                  f"serviced (`{p.text(60)}`)")
     if not stop_edges:
         ctx.fail(cons + "#stopflag", f.loc(), "worker loop never tests _thread.is_stopped")
+    # ... nor die: whatever the message handler lets escape is caught in the loop
+    cons = "work_read_queue:handler-isolated"
+    ctx.inst(cons)
+    par = A.parents(f.node)
+    dcalls = [n for n in A.walk_no_nested(f.node) if isinstance(n, ast.Call)
+              and A.call_name(n).endswith("__dispatch_message")]
+    if not dcalls:
+        ctx.error("work_read_queue does not call __dispatch_message", rule="C05-R4")
+    for c in dcalls:
+        cur, ok_ = c, False
+        while cur in par:
+            up = par[cur]
+            if isinstance(up, ast.Try) and cur in up.body and any(
+                    h.type is None or ast.unparse(h.type) in ("Exception", "BaseException")
+                    for h in up.handlers):
+                ok_ = True
+                break
+            cur = up
+        if not ok_:
+            ctx.fail(cons, f.loc(c), "the message handler is called outside any try/except Exception "
+                     "of the reader loop: an exception it lets escape (e.g. raised before the "
+                     "node's own try block, or inside its error handler) terminates the reader "
+                     "thread - the connection stays open and READY but is never read again")
     getters = [c for c in call_sites(model, "get") + call_sites(model, "get_nowait")
                if c.receiver.endswith("." + QUEUE)]
     putters = [c for c in call_sites(model, "put") + call_sites(model, "put_nowait")
